@@ -85,6 +85,29 @@ theorem C19_bytes_in_order (c : Cfg) (hv : c.Valid) (hb : c.typ = .binary) (sc :
   · rw [hlen]; rw [hgot]; simp [Cfg.spec]
   · rw [hlen]; exact hs.pos_eq
 
+/-- **C19_chars_in_order**: the same for a text stream whose source is the UTF-8 text of the characters
+    `runes` (any Unicode scalar values other than U+FFFD, so 1 to 4 bytes each): whatever the queries
+    do in between (peeks, property queries, byte goals that raise their type error, reads at and past
+    the end) — as long as there is no read_term, which consumes characters without handing them out —
+    the characters handed out by the `get_char` goals are, in program order, exactly the first
+    characters of the source, and `position` is the length of their encoding. -/
+theorem C19_chars_in_order (c : Cfg) (hv : c.Valid) (ht : c.typ = .text) (runes : List Nat)
+    (hg : GoodRunes runes) (hsrc : c.src = encAll runes) (sc : Scanner σ) (prog : List (List Op))
+    (hnr : ∀ q ∈ prog, Op.readTerm ∉ q) :
+    gotChars prog (runProg c sc prog Stream.init).1 =
+      runes.take (gotChars prog (runProg c sc prog Stream.init).1).length ∧
+    (runProg c sc prog Stream.init).2.position =
+      ((encAll (gotChars prog (runProg c sc prog Stream.init).1)).length : Int) := by
+  obtain ⟨cu, hj, hs⟩ := runProg_sim hv sc prog (sim_init c)
+  obtain ⟨k', _, hk', hidx, hgot⟩ :=
+    judge_chars c.spec ht runes hg hsrc sc prog _ {} cu 0 hnr (Nat.zero_le _) (by simp [encAll]) hj
+  simp only [List.drop_zero, Nat.sub_zero] at hgot
+  have hlen : (gotChars prog (runProg c sc prog Stream.init).1).length = k' := by
+    rw [hgot]; simp; omega
+  constructor
+  · rw [hlen]; exact hgot
+  · rw [hs.pos_eq, hidx, hgot]
+
 /-- **C19_reachable_sim**: every reachable stream is in the simulation relation with some cursor of the
     specification (the invariant behind the theorems below) -/
 theorem C19_reachable_sim {c : Cfg} (hv : c.Valid) {sc : Scanner σ} {s : Stream} (h : Reachable c sc s) :
@@ -381,6 +404,13 @@ example : (runConj exCfg Clause.scanner [.peekChar, .peekChar, .getChar, .getCha
     delivers end_of_file, the one after that raises the permission error -/
 example : (runProg exFile Clause.scanner [[.readTerm, .getChar], [.readTerm], [.propEos], [.readTerm], [.readTerm]] Stream.init).1 =
     [[.term (.atom "a"), .char 32], [.term (.atom "b")], [.eos .at], [.eof], [.err .pastEOS]] := by decide +kernel
+
+/-- hypotheses of C19_chars_in_order: `é1` is the encoding of the characters é, 1 -/
+example : GoodRunes [0xE9, 0x31] ∧ exCfg.src = encAll [0xE9, 0x31] ∧ exCfg.typ = .text := by
+  refine ⟨?_, by decide, rfl⟩
+  intro r hr
+  simp at hr
+  rcases hr with rfl | rfl <;> decide
 
 example : Reachable exCfg Clause.scanner (runProg exCfg Clause.scanner [[.peekChar]] Stream.init).2 := ⟨_, rfl⟩
 
